@@ -39,7 +39,9 @@ FINISH = dict(
          "contact update, before a key roll-over, and between the synchronisation and the newOrder of one attempt (every later "
          "POST must name the account URL of the NEW registration: a kid the CA has superseded counts as not on record); one "
          "daemon with two CAs and two accounts (each CA's log judged on its own; every order under the account of its "
-         "certificate); badNonce with and without Replay-Nonce, three in a row, 503 without nonce and 2xx without nonce at "
+         "certificate; then the key type of the account BOTH CAs know is edited — several key-type pairs, a second roll-over, "
+         "contacts edited with it, the edited key meeting one CA a start before the other — the daemon restarted and both "
+         "certificates renewed: each CA's POSTs judged under the key THAT CA has on record); badNonce with and without Replay-Nonce, three in a row, 503 without nonce and 2xx without nonce at "
          "every request position of an issuance, at the contact update and at the key roll-over; answers withheld at the "
          "authorization, order and download requests; external account bindings with MAC keys of 16 / 35 / 65 / 200 bytes, a "
          "key identifier that needs JSON escaping, the default algorithm, six account key types; CAs that append a query "
@@ -288,6 +290,33 @@ def more_scenarios(quick):
     # --- one daemon, two CAs, two accounts, three certificates
     scs.append({"name": "two-ca-two-accounts", "steps": [{"key_type": "ecdsa_p256"}], "nonce_on_get": True, "rules": [], "two_ca": True})
     scs.append({"name": "two-ca-two-accounts-nog", "steps": [{"key_type": "ed25519"}], "nonce_on_get": False, "rules": [], "two_ca": True})
+    # --- the SHARED account (acc1: crt1 on ep1, crt2 on ep2) is registered on both CAs, then its key type is edited:
+    # each CA holds the old key until ITS roll-over; every POST to a CA is judged under the key THAT CA has on record.
+    # Later steps restart the daemon and renew on both CAs (what the account file says about each CA must be what
+    # that CA was told); `due`: only those certificates are renewed in that step (the other CA is not contacted)
+    two = [("ecdsa_p256", "ecdsa_p384", "same"), ("rsa2048", "ed25519", "chain:ecdsa_p521"), ("ed25519", "ecdsa_p256", "staggered"),
+           ("ecdsa_p384", "rsa2048", "contacts"), ("ecdsa_p256", "ed25519", "staggered-chain:ecdsa_p384")]
+    if not quick:
+        two += [("ecdsa_p521", "ed448", "same"), ("ed448", "ecdsa_p384", "staggered"), ("ecdsa_p256", "rsa4096", "chain:ed25519"),
+                ("rsa2048", "ecdsa_p256", "staggered-ep1"), ("ecdsa_p256", "ed25519", "contacts"), ("ed25519", "ed448", "chain:rsa2048"),
+                ("ed448", "ecdsa_p521", "staggered-chain:ecdsa_p256")]
+    for n, (a, b, shape) in enumerate(two):
+        steps = [{"key_type": a}, {"key_type": b}]
+        if shape == "same":              # roll-over on both CAs, then a restart with renewals on both
+            steps.append({"key_type": b})
+        elif shape.startswith("chain:"):   # a second roll-over: each CA then has superseded keys of its own history
+            steps += [{"key_type": shape[6:]}, {"key_type": shape[6:]}]
+        elif shape.startswith("staggered-chain:"):
+            # ... and the key type is edited AGAIN before the other CA is met: that CA is two keys behind (the key it
+            # holds is neither the current one nor the one superseded last)
+            steps = [{"key_type": a}, {"key_type": b, "due": ["crt2"]}, {"key_type": shape[16:]}, {"key_type": shape[16:]}]
+        elif shape.startswith("staggered"):   # the edited key first meets ONE CA only; the other CA is met a start later
+            first = "crt1" if shape.endswith("ep1") else "crt2"
+            steps = [{"key_type": a}, {"key_type": b, "due": [first]}, {"key_type": b}, {"key_type": b}]
+        elif shape == "contacts":        # key type and contacts edited together
+            steps = [{"key_type": a}, {"key_type": b, "contacts": ["one@example.org", "uno@example.org"]}, {"key_type": b}]
+        scs.append({"name": "two-ca-rollover-%s-%s-%s" % (a, b, shape.replace(":", "-")), "steps": steps, "nonce_on_get": n % 2 == 0,
+                    "rules": [], "two_ca": True})
     # --- nonce histories at every request position
     cells = [(p, f) for pi, p in enumerate(POS1) for fi, f in enumerate(NONCE_FAULTS) if not quick or (pi + 2 * fi) % 5 in (0, 3)]
     for n, (p, f) in enumerate(cells):
@@ -366,12 +395,11 @@ def run_flow(sc, root, helper):
 def run_two_ca(sc, d, ca, helper):
     """One daemon, two CAs (endpoints ep1 / ep2), two accounts: crt1 = (acc1, ep1), crt2 = (acc1, ep2),
     crt3 = (acc2, ep1).  Each CA's log is judged on its own (nonces, kid, key are per server); on ep1 every
-    order must moreover be made under the account of its certificate."""
+    order must moreover be made under the account of its certificate.  Several steps = several starts of the
+    daemon on the same directories and the same two CAs: a step gives acc1's key type (and contacts) as the
+    configuration then says, and the certificates that are due in it (`due`, default all three)."""
     ca2 = mockca.MockCA(helper, opts={"nonce_on_get": not sc["nonce_on_get"], "valid_secs": 90 * 86400})
     ca2.start()
-    kt = sc["steps"][0]["key_type"]
-    accts = [{"name": "acc1", "contacts": [{"mailto": "one@example.org"}], "key_type": kt},
-             {"name": "acc2", "contacts": [{"mailto": "two@example.org"}], "key_type": "ecdsa_p384"}]
     certs = [{"name": "crt1", "identifiers": [{"dns": "one.example.org", "challenge": "http-01"}], "key_type": "ecdsa_p256"},
              {"name": "crt2", "identifiers": [{"dns": "two.example.org", "challenge": "http-01"}], "key_type": "ecdsa_p256",
               "endpoint": "ep2"},
@@ -381,10 +409,23 @@ def run_two_ca(sc, d, ca, helper):
     def pre(root, cfg):
         cfg["endpoint"].append({"name": "ep2", "url": ca2.base + "/directory", "tos_agreed": True})
         cfggen.write(os.path.join(root, "acmed.toml"), cfg)
+    ok = True
     try:
-        obs = flow.run_scenario(d, certs, accounts=accts, ca=ca, helper=helper, timeout=40, n_postop=3, pre=pre)
-        posts = [h for h in obs["hooks"] if h["name"] == "rec-post-operation"]
-        ok = len(posts) >= 3 and all(flow.hook_args(p).get("is_success") == "true" for p in posts)
+        for step in sc["steps"]:
+            accts = [{"name": "acc1", "contacts": [{"mailto": m} for m in (step.get("contacts") or ["one@example.org"])],
+                      "key_type": step["key_type"]},
+                     {"name": "acc2", "contacts": [{"mailto": "two@example.org"}], "key_type": "ecdsa_p384"}]
+            due = step.get("due") or [c["name"] for c in certs]
+            # a certificate is due when its file is missing: remove those of the certificates renewed in this step
+            for fn in os.listdir(os.path.join(d, "certs")) if os.path.isdir(os.path.join(d, "certs")) else []:
+                if fn.endswith(".crt.pem") and fn.split("_")[0] in due:
+                    os.remove(os.path.join(d, "certs", fn))
+            log = os.path.join(d, "hooks.log")
+            if os.path.exists(log):
+                os.remove(log)
+            obs = flow.run_scenario(d, certs, accounts=accts, ca=ca, helper=helper, timeout=40, n_postop=len(due), pre=pre)
+            posts = [h for h in obs["hooks"] if h["name"] == "rec-post-operation"]
+            ok = ok and len(posts) >= len(due) and all(flow.hook_args(p).get("is_success") == "true" for p in posts)
     finally:
         ca.stop()
         ca2.stop()
@@ -448,7 +489,9 @@ def flows(ctx, helper, root):
                                    "kid_ok", "sig_ok", "sig_len")}),
                 {"sc": sc, "record": {k: v2 for k, v2 in x.items() if k != "_src"},
                  "request": {k: src.get(k) for k in ("path", "hdr", "payload", "nth", "signer", "alg_on_record")}})
-        elif sc["name"].startswith("rollover") and not any(x["kind"] == "keyChangeInner" for x in recs):
+        elif sc["name"].startswith(("rollover", "two-ca-rollover")) and not any(x["kind"] == "keyChangeInner" for x in recs):
+            # (two-CA roll-overs: asked of EACH server's log — a CA that is never told about the new key is the defect
+            # the family exists for; its POSTs then fail the judge above, this line is for a harness that tests nothing)
             ctx.broke("harness", "a roll-over scenario produced no keyChange request", {"sc": sc})
     ctx.traces += len(keep)
     # (the call-site replay follows ONE account and ONE certificate per server log)
@@ -509,7 +552,13 @@ def replay(ctx):
         else:
             v = vlib.model([{"op": "c04_judge", "log": [{k: v2 for k, v2 in x.items() if k != "_src"} for x in recs]}])[0]
             print(v)
-        keychange.extend(ctx, helper, vlib.model, [res])
+            if "log2" in res:      # the second CA of a two-CA flow is a server of its own
+                recs2 = records_of(res["log2"], res["accounts2"])
+                v2 = vlib.model([{"op": "c04_judge", "log": [{k: v3 for k, v3 in x.items() if k != "_src"} for x in recs2]}])[0]
+                print("ep2", v2)
+                v = dict(v, holds=bool(v["holds"] and v2["holds"]))
+        if not rsc.get("two_ca"):
+            keychange.extend(ctx, helper, vlib.model, [res])
         for what, detail, _ in ctx.broken:
             print(what, detail[:1000])
         shutil.rmtree(root, ignore_errors=True)
